@@ -64,8 +64,10 @@ namespace mustache {
         template <typename T>
         EventId registerEventType() noexcept {
             static EventId result = registerEventType(type_name<T>());
-            if(!subscriptions_.has(result) || !subscriptions_[result]) {
-                subscriptions_.resize(result.toInt() + 1);
+            if(!subscriptions_.has(result)) {
+                subscriptions_.resize(result.toInt() + 1); // only ever grows: a smaller size would drop other types' receivers
+            }
+            if(!subscriptions_[result]) {
                 subscriptions_[result].reset(new Receivers<T>{});
             }
             return result;
@@ -94,20 +96,20 @@ namespace mustache {
 
         template <typename T, typename F>
         void subscribe_(F* sub) {
-            static const EventId id = registerEventType<T>();
+            const EventId id = registerEventType<T>(); // per manager: the slot may not exist yet in this one
             sub->events_ = shared_from_this_;
             static_cast<Receivers<T>* >(subscriptions_[id].get())->add(sub);
         }
 
         template <typename T>
         void unsubscribe(Receiver<T>* sub) {
-            static const EventId id = registerEventType<T>();
+            const EventId id = registerEventType<T>(); // per manager: the slot may not exist yet in this one
             static_cast<Receivers<T>* >(subscriptions_[id].get())->remove(sub);
         }
 
         template <typename T>
         void post(const T& event) noexcept {
-            static const EventId id = registerEventType<T>();
+            const EventId id = registerEventType<T>(); // per manager: the slot may not exist yet in this one
             static_cast<Receivers<T>* >(subscriptions_[id].get())->onEvent(event);
         }
     private:
